@@ -123,6 +123,12 @@ func newWorld(o opts) *world {
 		Obj: &topoapi.Object_Entity{Entity: &topoapi.Entity{KindID: topoapi.ONOS_CONFIG}}}); err != nil {
 		panic(err)
 	}
+	w.start(o)
+	return w
+}
+
+// start runs the controllers (watchers with replay, queues) over the current store handles
+func (w *world) start(o opts) {
 	e := w.e
 	var txs transaction.Store = e.Txs
 	if o.faultIndex != 0 {
@@ -140,7 +146,18 @@ func newWorld(o opts) *world {
 			panic(err)
 		}
 	}
-	return w
+}
+
+// restart: the controllers stop, the stores are re-opened on the same Atomix client (what a process restart does),
+// whatever `while` does happens with no controller running, then fresh controllers start and replay the stores
+func (w *world) restart(o opts, while func()) {
+	w.stop()
+	time.Sleep(100 * time.Millisecond)
+	w.e.OpenStores()
+	if while != nil {
+		while()
+	}
+	w.start(o)
 }
 
 func (w *world) stop() {
@@ -529,6 +546,48 @@ var scenarios = []scenario{
 		w.connect("t1")
 		w.connect("t2")
 		w.judge(seed, "serializable_two_followers", qd)
+	}},
+	// sync_wakeup_serializable_rollback: a SERIALIZABLE change and its rollback are committed before the device has ever
+	// connected (the rollback waits at the apply gate and has lowered Configuration.Index to 0); then the device connects:
+	// the walk to the first proposal that is not applied has to start at Status.Proposed.Index
+	{"sync_wakeup_serializable_rollback", func(seed int64, r *rand.Rand, qd time.Duration) {
+		w := newWorld(opts{})
+		defer w.stop()
+		w.target("t1", false)
+		w.change(true, "t1", "a")
+		w.quiet(qd/2, 5*qd)
+		w.rollback(1)
+		w.quiet(qd/2, 5*qd)
+		w.connect("t1")
+		w.judge(seed, "sync_wakeup_serializable_rollback", qd)
+	}},
+	// restart_pending: a Set is accepted (the transaction is in the store, never updated) while no controller runs - the
+	// process restarts between the northbound's Create and the controller's first status update; the fresh controllers see
+	// it only through the replay of the store
+	{"restart_pending", func(seed int64, r *rand.Rand, qd time.Duration) {
+		w := newWorld(opts{})
+		defer w.stop()
+		w.target("t1", false)
+		w.connect("t1")
+		w.change(false, "t1", "a")
+		w.quiet(qd/2, 5*qd)
+		w.restart(opts{}, func() { w.change(false, "t1", "b") })
+		w.quiet(qd/2, 5*qd)
+		w.change(false, "t1", "c")
+		w.judge(seed, "restart_pending", qd)
+	}},
+	// restart_applied (control): a restart after everything has been applied, then a Set
+	{"restart_applied", func(seed int64, r *rand.Rand, qd time.Duration) {
+		w := newWorld(opts{})
+		defer w.stop()
+		w.target("t1", false)
+		w.connect("t1")
+		w.change(false, "t1", "a")
+		w.quiet(qd/2, 5*qd)
+		w.restart(opts{}, nil)
+		w.quiet(qd/2, 5*qd)
+		w.change(false, "t1", "b")
+		w.judge(seed, "restart_applied", qd)
 	}},
 	// wedged_target / requeue cycle: {t1 refuses, t2 fine}; the transaction controller is slower than the proposal
 	// controller, so the refusal of t1 is seen before t2's apply was started; then a change on t2
